@@ -16,7 +16,7 @@ import (
 func init() {
 	core.Register(&core.Check{
 		ID:     "C47",
-		Rule:   "cases (builds with -tags protolegacy, fast path and -tags protoreflect): MessageSet messages of the three messagesetpb flavours and their dynamicpb twins, (a) contents: PRNG subsets of the registered extension messages (Ext1, Ext2, ExtRequired, ExtLargeNumber incl. type id 2^29) with PRNG field values plus unknown items: Marshal (deterministic and default) must consist of items only (start group 1, type_id varint 2, message bytes 3, end group) whose (type id, payload) set denotes the content, Size == len, and decode back Equal, also nested in MessageSetContainer; (b) item encodings built by a reference encoder: type_id before/after message, several items with one type id (contiguous or interleaved), unknown type ids, extra unknown fields inside items, non-minimal varints, non-message payloads: decode verdict and content vs the reference (duplicates merged in order, unknown ids preserved, malformed payload => error), re-marshalled before any access (lazy extension pass-through) and after access, each time Size == len and decode-equal; distinct = distinct wire strings; non-trivial = at least one item",
+		Rule:   "cases (builds with -tags protolegacy, fast path and -tags protoreflect): MessageSet messages of the three messagesetpb flavours and their dynamicpb twins, (a) contents: PRNG subsets of the registered extension messages (Ext1, Ext2, ExtRequired, ExtLargeNumber incl. type id 2^29) with PRNG field values plus unknown items: Marshal (deterministic and default) must consist of items only (start group 1, type_id varint 2, message bytes 3, end group) whose (type id, payload) set denotes the content, Size == len, and decode back Equal, also nested in MessageSetContainer; (b) item encodings built by a reference encoder: type_id before/after message, several items with one type id (contiguous or interleaved), unknown type ids, extra unknown fields inside items, non-minimal varints, non-message payloads: decode verdict and content vs the reference (duplicates merged in order, unknown ids preserved, malformed payload => error), Size taken on a fresh decode before anything else touches it (the size pass and the marshal pass must agree while extensions are still lazy), re-marshalled before any access (lazy extension pass-through) and after access, each time Size == len and decode-equal; distinct = distinct wire strings; non-trivial = at least one item",
 		Assume: []string{"the 60-line reference item encoder/parser in checks/c47.go (MessageSet wire format: repeated group Item = 1 { required int32 type_id = 2; required bytes message = 3; })", "proto.Equal, and binary codecs of the extension messages themselves (C03/C06)"},
 		Batches: func(tier string) []core.Batch {
 			var bs []core.Batch
@@ -449,6 +449,31 @@ func c47Wire(c *core.Ctx, r *core.Rand, mt protoreflect.MessageType, dyn bool, k
 			return false
 		}
 		return true
+	}
+	// 0. Size BEFORE anything else touches a second, freshly decoded copy: the size
+	// pass and the marshal pass must agree while the extensions are still lazy
+	{
+		fresh := newOf(mt, dyn)
+		if (proto.UnmarshalOptions{AllowPartial: true}).Unmarshal(wire, fresh.Interface()) == nil {
+			for _, det := range []bool{false, true} {
+				var sz int
+				var enc []byte
+				var merr error
+				if !c.NoPanic("mset:size-first-panic", detail(), func() {
+					sz = proto.MarshalOptions{Deterministic: det, AllowPartial: true}.Size(fresh.Interface())
+					enc, merr = proto.MarshalOptions{Deterministic: det, AllowPartial: true}.Marshal(fresh.Interface())
+				}) {
+					break
+				}
+				c.Count("size_before_marshal_checks")
+				if merr != nil || sz != len(enc) {
+					d := detail()
+					d["size"], d["len"], d["err"], d["deterministic"] = sz, len(enc), errStr(merr), det
+					c.Violation(fmt.Sprintf("mset:size-before-any-access-differs-from-encoded-length:duplicate-ids=%v", dupID), d)
+					break
+				}
+			}
+		}
 	}
 	// 1. re-marshal BEFORE any access (lazy extension pass-through)
 	c.Count("passthrough_marshals")
